@@ -215,9 +215,10 @@ func (oracleC12) Step(x *OCtx, t *Trans) []Violation {
 	}
 	var gotResp, gotState []CallbackRec
 	for _, cb := range t.Res.Callbacks {
-		if cb.Kind == "response" {
+		switch cb.Kind {
+		case "response":
 			gotResp = append(gotResp, cb)
-		} else {
+		case "state":
 			gotState = append(gotState, cb)
 		}
 	}
